@@ -49,6 +49,7 @@ type Link struct {
 
 	c2b []cframe // written by the client, not yet seen by the broker
 	b2c [][]byte // produced by the broker, not yet delivered to the client
+	b2cMsg []message.Message // parallel to b2c: the decoded form (nil for raw frames)
 
 	rx     chan []byte
 	dead   chan struct{} // closed when the link is cut / closed by the peer
@@ -272,12 +273,14 @@ func (l *Link) push(m message.Message) {
 		return
 	}
 	l.b2c = append(l.b2c, b)
+	l.b2cMsg = append(l.b2cMsg, m)
 }
 
 // pushRaw queues raw bytes (corruption faults).
 func (l *Link) pushRaw(b []byte) {
 	if l.Alive() {
 		l.b2c = append(l.b2c, b)
+		l.b2cMsg = append(l.b2cMsg, nil)
 	}
 }
 
@@ -288,6 +291,7 @@ func (l *Link) DeliverOne() bool {
 	}
 	b := l.b2c[0]
 	l.b2c = l.b2c[1:]
+	l.b2cMsg = l.b2cMsg[1:]
 	l.rxBytes += uint64(len(b))
 	select {
 	case l.rx <- b:
@@ -343,6 +347,7 @@ func (l *Link) Kill(readErr, writeErr error) {
 		}
 	}
 	l.b2c = nil
+	l.b2cMsg = nil
 	s.Broker.LinkDown(l)
 }
 
@@ -372,6 +377,7 @@ func (l *Link) Blackhole() {
 		}
 	}
 	l.b2c = nil
+	l.b2cMsg = nil
 	s.Broker.LinkDown(l)
 }
 
@@ -433,3 +439,14 @@ func (u *unrelSide) TxBytesCounterValue() uint64 { return u.tx }
 func (u *unrelSide) IsUnreliable()               {}
 
 var _ = io.EOF
+
+// PendingB2Cchunks counts undelivered downstream chunks for a stream alias.
+func (l *Link) PendingB2Cchunks(alias uint32) int {
+	n := 0
+	for _, m := range l.b2cMsg {
+		if c, ok := m.(*message.DownstreamChunk); ok && c.StreamIDAlias == alias {
+			n++
+		}
+	}
+	return n
+}
